@@ -77,6 +77,7 @@ KANI_GROUPS = {
             dict(name="vk_sequence_apply_is_stream", kind="bounded(Change(1), 4 inputs in -8..=8)", timeout=300, props=["C09"], witness_units=["combinators"], witness_fns=["seq_apply", "apply"]),
             dict(name="vk_method_new_apply_is_stream", kind="bounded(Change(1), 4 inputs in -8..=8)", timeout=300, props=["C09"], witness_units=["combinators"], witness_fns=["new_apply", "seq_apply"]),
             dict(name="vk_method_new_fn_is_stream", kind="bounded(Change(1), 3 inputs in -8..=8)", timeout=300, props=["C09"], witness_units=["combinators"], witness_fns=["new_fn"]),
+            dict(name="vk_vidya_no_overshoot_3steps", kind="bounded(Vidya(3), 3 steps over {0,1,2})", timeout=600, props=["C12"], witness_units=["derived_window"], witness_fns=["Vidya::"]),
             dict(name="vk_rsi_sma_no_panic_4steps", kind="bounded(RSI<SMA(3)>, 4 steps, integer closes)", timeout=900, tier="thorough", props=["C10", "C12"], witness_units=["ind_rsi"]),
         ]),
     "indicators": dict(
@@ -232,7 +233,11 @@ PROPS["C10"] = dict(
            "is a proof obligation. For each method under contract `new` is verified for EVERY parameter value (its precondition new_req is `true`; "
            "for WMA/HMA it only excludes lengths >= 2^32 that exist under period_type_u64) to return Err for the documented too-small lengths and "
            "otherwise Ok with the invariant, and `next` is verified panic-free from the invariant alone for every input."),
-    assumptions=[REALS + " (a float division by zero is not a panic)", "indicator validate/init and string parsing are not covered here yet",
+    assumptions=[REALS + " (a float division by zero is not a panic)",
+                 "indicator validate/init/next of all 36 shipped indicators are covered (init is verified for EVERY configuration: Err when validate() is false, no panic otherwise; "
+                 "HullMovingAverage and TrendStrengthIndex only for periods that fit the usize arithmetic of their constructors, which matters under period_type_u64 only); "
+                 "string parsing is covered by C11/C18, not here",
+                 "WoodiesCCI's bar counter (isize) and ParabolicSAR's acceleration counter (u32) are assumed not to reach their maxima (2^63 / 2^32 bars on one side)",
                  "debug assertions are treated as enabled"],
 )
 PROPS["C19"] = dict(
@@ -315,7 +320,11 @@ PROPS["C05"] = dict(
            "to return, as its raw values, the documented formula written over the component step relations (e.g. MACD: MA1(src) - MA2(src) and its "
            "signal line MA3(MACD); Bollinger: SMA +- sigma*StDev; Donchian: highest high / lowest low / midpoint), and `init` to seed each component "
            "as documented; with the component contracts of C02-C04 this is the formula on the candle history, by induction over next."),
-    assumptions=[REALS, "only the indicators listed in the claim are covered; the other shipped indicators are not under contract",
+    assumptions=[REALS, "all 36 shipped indicators are under contract (`example` is a sample, not shipped); generic ones for an arbitrary MovingAverageConstructor M whose "
+                 "instance satisfies the Method/MovingAverage trait contract - the concrete dispatch enum MA/MAInstance (helpers/methods.rs) is NOT under contract",
+                 "TrendStrengthIndex has no published formula: its contract is the regression/correlation expression the code computes over the window sums; "
+                 "Kaufman's filtered signal and the ranges of ADX/+DI/-DI are not specified",
+                 "methods used through their trait contract only (verified in their own units): TSI, TMA, Momentum/Change, RateOfChange, SWMA, HMA, CCI, LinearVolatility, StDev, Highest, Lowest, ADI, ReversalSignal",
                  "IndicatorResult::new is used through a contract that is not verified in Verus; the same contract is proved by the Kani harness vk_indicator_result_new",
                  "std trait impls (IndicatorConfig/IndicatorInstance) are checked as inherent fns with the same bodies (R12)"],
 )
@@ -333,15 +342,17 @@ PROPS["C06"] = dict(
                  "which the detector's position counter saturates (C07/C14 known finding: precondition in_capacity)"],
 )
 PROPS["C12"] = dict(
-    verus=INDICATOR_UNITS + ["ohlcv", "candle_methods", "derived_window", "st_dev", "ema", "indicator_base"],
+    verus=INDICATOR_UNITS + ["ohlcv", "candle_methods", "derived_window", "st_dev", "ema", "indicator_base"], kani=["witness"],
     claim=("Ideal-arithmetic ranges: proved as extra postconditions — CLV in [-1,1] for low<=close<=high; tr_close and TR >= 0 for high >= low; StDev and "
            "LinearVolatility >= 0; Vidya's CMO factor in [0,1] and its guarded quotient well defined; TSI's guard implies a positive denominator; "
            "RSI in [0,1] for averaging kinds that cannot overshoot (with its debug assertion discharged); Bollinger upper >= middle >= lower; "
            "Donchian and PriceChannel contain the highs/lows they are built from; Aroon lines in (0,1]; Stochastic %K in [0,1] for an ordered candle and both "
            "lines in [0,1] for averaging kinds that cannot overshoot; Keltner upper >= average >= lower while the true ranges fed are non-negative; Envelopes ordered for a non-negative average; "
-           "ParabolicSAR reports a SAR on the side of the price opposite to its trend and never lets the next SAR cross the last two candles; MoneyFlowIndex in [0,1] for non-negative volumes."),
+           "ParabolicSAR reports a SAR on the side of the price opposite to its trend and never lets the next SAR cross the last two candles; MoneyFlowIndex in [0,1] for non-negative volumes; "
+           "ChandeMomentumOscillator in [-1,1] (sums of gains and losses non-negative by the window invariant)."),
     assumptions=[REALS + ": residue after a flat stretch and non-finite outputs are float behaviour and are NOT decided",
-                 "CMO, CMF's range, SMI/TSI-based indicators, MeanAbsDev >= 0 are not covered by this check yet"],
+                 "CMF's range, TSI-based indicators (TrueStrengthIndex, SMIErgodic: |TSI| <= 1 needs |EMA(EMA(m))| <= EMA(EMA(|m|)), an induction over the whole history), MeanAbsDev >= 0, the ranges of ADX/+DI/-DI, "
+                 "RelativeVigorIndex and TrendStrengthIndex are not covered by this check yet"],
 )
 
 PROPS["C17"] = dict(
